@@ -308,3 +308,5 @@ func trimArgs(fn string) string {
 	}
 	return strings.TrimSuffix(fn, "(...)")
 }
+
+func simrtGoID() uint64 { return simrt.GoID() }
